@@ -270,9 +270,10 @@ func runC10(r *Run) {
 	if vd := r.fn(P, pkgParser, "Parser.ValidateDelta"); vd != nil {
 		r.checkLoopRequires(P+".accept.patches", vd, "every patch of the delta has an enabled action and passes its per-action validator",
 			"one disabled or invalid patch anywhere in the list must reject the delta",
-			[]string{"ok(Patch.GetAction(_))", "true(isPatchEnabled(_, _))", "ok(patchvalidator.Validate(_))"})
+			[]string{"ok(Patch.GetAction(_))", "true(isPatchEnabled(_, _)) | cmp($0.Protocol.Patches[_] == _)", "ok(patchvalidator.Validate(_))"})
 	}
-	if pe := r.fn(P, pkgParser, "Parser.isPatchEnabled"); pe != nil {
+	// (when the membership test is written in place, the element match itself is the required edge above)
+	if pe := r.P.Func(pkgParser, "Parser.isPatchEnabled"); pe != nil && pe.Blocks != nil {
 		ff := r.E.Facts(pe, core.Ctx{})
 		ok := false
 		nTrue := 0
@@ -322,32 +323,15 @@ func (r *Run) checkLoopRequires(id string, f *ssa.Function, what, why string, re
 	}
 	var missing []string
 	for _, req := range required {
-		// can head reach head avoiding edges that carry req?
-		seen := map[*ssa.BasicBlock]bool{}
-		work := []*ssa.BasicBlock{head}
-		cycle := false
-		for len(work) > 0 && !cycle {
-			b := work[len(work)-1]
-			work = work[:len(work)-1]
-			for _, s := range b.Succs {
-				if !ff.IsLiveEdge(b, s) || edgeHas(ff, b, s, req) {
-					continue
-				}
-				if s == head {
-					cycle = true
-					break
-				}
-				if !seen[s] {
-					seen[s] = true
-					work = append(work, s)
-				}
-			}
-		}
+		// can head reach head avoiding edges that carry req? (feasible ways only: a flag merged from "found" and "not
+		// found" and tested afterwards is followed on the value it arrives with)
+		rq := req
+		cycle := ff.WalkFeasible([]*ssa.BasicBlock{head}, func(a, b *ssa.BasicBlock) bool { return edgeHasAny(ff, a, b, rq) }, func(b *ssa.BasicBlock) bool { return b == head })
 		// the required edge must exist at all
 		exists := false
 		for _, b := range f.Blocks {
 			for _, s := range b.Succs {
-				if edgeHas(ff, b, s, req) {
+				if edgeHasAny(ff, b, s, req) {
 					exists = true
 				}
 			}
@@ -412,4 +396,14 @@ func (r *Run) checkLimitRoles(P string, sinks map[string][]sink, intakeFns map[*
 		}
 		r.R.Check(len(bad) == 0, id, rule, "Protocol."+lr.Param, "pkg/api/protocol/protocol.go", why, fmt.Sprintf("%d guard(s) of this role", n), strings.Join(bad, "; "))
 	}
+}
+
+// edgeHasAny: the edge carries one of the alternatives of req ("a | b").
+func edgeHasAny(ff *core.FnFacts, b, s *ssa.BasicBlock, req string) bool {
+	for _, alt := range strings.Split(req, " | ") {
+		if edgeHas(ff, b, s, strings.TrimSpace(alt)) {
+			return true
+		}
+	}
+	return false
 }
